@@ -1,5 +1,7 @@
 import Anything.Model.Lexer
 import Anything.Lemmas.ParserLeaves
+import Anything.Lemmas.ParserTotal
+import Anything.Lemmas.ParserFuel
 /-!
 # C12 — lexing is lossless (lexer half)
 
@@ -134,6 +136,11 @@ The kind `EOF` is what `Parser::nth` answers past the end of the buffer. A token
 *contains* a token of that kind makes `root` stop early (`C12_leaves_needs_noEOF`), so the
 statement over all token lists carries the hypothesis that no token has kind `EOF`; the lexer
 never produces one (`C12_lex_noEOF`), so the statement over all source strings is unconditional.
+
+Parsing is also total (`C12_parse_total`, for every token list, with or without `EOF` tokens):
+the builder is never asked to close a checkpoint it cannot find and `fuelFor` fuel is enough;
+more fuel never changes the result (`C12_fuel_irrelevant`). `C12_lossless` puts the halves
+together: every string parses to a tree whose leaves are its tokens and whose text is the string.
 -/
 
 open Anything.Grammar Anything.PLeaves
@@ -198,6 +205,36 @@ theorem C12_parse_bytes (src : List Char) (forest : List Tree)
     (h : parseRoot src = .ok forest) :
     ((Tree.leavesList forest).map Token.len).sum = utf8Len src := by
   rw [C12_parse_leaves src forest h]; exact C12_bytes src
+
+/-- **C12 (parse total).** Parsing never fails, for every token list whatsoever: the builder
+is never asked to close a checkpoint it cannot find (`BErr.missingNode`, `BErr.nested`) and
+the fuel `fuelFor toks` always suffices (`BErr.fuel`). The proof (`Lemmas/ParserTotal.lean`)
+carries the invariant that the checkpoints still in use point at top-level trees in document
+order, and the measure `4 * (tokens left) + constant ≤ fuel` through the mutually recursive
+grammar. -/
+theorem C12_parse_total (toks : List Token) : ∃ forest, parseRootToks toks = .ok forest :=
+  PTotal.parseRootToks_ok toks
+
+/-- `C12_parse_total` in the form "never `.error`". -/
+theorem C12_parse_never_error (toks : List Token) (e : BErr) : parseRootToks toks ≠ .error e := by
+  obtain ⟨forest, h⟩ := C12_parse_total toks
+  rw [h]; exact fun hh => by cases hh
+
+/-- **C12 (fuel is irrelevant).** The fuel of the model is only a device to make the grammar's
+recursion structural: with any amount of fuel at least `fuelFor toks` the root rule returns
+exactly what it returns with `fuelFor toks` (the same forest, the same builder state). -/
+theorem C12_fuel_irrelevant (toks : List Token) (fuel : Nat) (h : fuelFor toks ≤ fuel) :
+    root fuel { toks := toks } = root (fuelFor toks) { toks := toks } :=
+  PFuel.root_fuel_irrelevant toks fuel h
+
+/-- **C12 (lossless).** Every source string parses, and the resulting tree has exactly the
+lexer's tokens as leaves, in order, covering the input text exactly once. -/
+theorem C12_lossless (src : List Char) : ∃ forest, parseRoot src = .ok forest ∧
+    Tree.leavesList forest = lex src ∧
+    (Tree.leavesList forest).flatMap Token.text = src ∧ Tree.textList forest = src := by
+  obtain ⟨forest, h⟩ := C12_parse_total (lex src)
+  exact ⟨forest, h, C12_parse_leaves src forest h, C12_parse_cover src forest h,
+    C12_parse_text src forest h⟩
 
 /-- Non-vacuity: a concrete query with nesting, a function call, a unit cast, an error
 recovery and a multi-byte character parses successfully (so the hypotheses of
